@@ -697,7 +697,7 @@ func main() {
 		runCase(r, &st, bl, bl.newDS(), c.Family, a, b, true)
 		r.Eval(1)
 		if r.ViolationCount() == 0 {
-			fmt.Println("  replay: no violation")
+			fmt.Println("  replay: no new violation (see KNOWN-FINDING lines, if any)")
 		}
 	})
 }
